@@ -70,8 +70,9 @@ ASSUMPTIONS = [
     'the placement clauses are judged against the DECLARED phase locks (Chemical(..., phase=)), not against the '
     '_light_indices/_heavy_indices the code compiled (a difference is itself reported: misclassified-phase-lock); the model is '
     'given the compiled lists because it mirrors the code',
-    'SLE._setup is modelled as of 6d30f81 (the index re-use path checks that the solute is a member, fixes_proposed/C03-3.md) '
-    'and 899e590 (a single-chemical setup stores key set and index too; a multi-chemical setup leaves pure-solute mode)',
+    'SLE._setup is modelled as of 6d30f81 (the index re-use path checks that the solute is a member, fixes_proposed/C03-3.md), '
+    '899e590 (a single-chemical setup stores key set and index too; a multi-chemical setup leaves pure-solute mode) and f93a1e5 '
+    '(re-use with a one-element index: pure-solute mode for the current solute, no membership check)',
     'packages: NaCl and Glucose carry N_solutes 2 and 1 (so `_heavy_solutes`, `_F_mol_heavy` and the sites they guard are live); '
     'package F has un-locked Propane and CO2 for the single-component branch at and above Tc; LLE single_loop=True is drawn (sl=1)',
     'unexpected-raise is not reported for a correlation evaluated outside its range or a solver that did not converge '
